@@ -19,6 +19,9 @@ Proof. unfold blen. simpl length. lia. Qed.
 Lemma blen_nil {A} : blen (@nil A) = 0.
 Proof. reflexivity. Qed.
 
+Lemma ok_inj {A} (x y : A) : Ok x = Ok y -> x = y.
+Proof. intros H. injection H as H. exact H. Qed.
+
 Lemma len_agg_list_app a b : len_agg_list (a ++ b) = len_agg_list a + len_agg_list b.
 Proof. induction a as [|x a IH]; cbn [len_agg_list app]; [reflexivity|rewrite IH; lia]. Qed.
 
@@ -106,7 +109,8 @@ Proof.
   - destruct (blen n <? e_max e) eqn:E.
     + intros H. inversion H; subst. constructor; [|constructor]. unfold fits. cbn. apply Z.ltb_lt in E. lia.
     + apply write_fragmented_fits; assumption.
-  - intros H. inversion H; subst. constructor; [|constructor]. unfold fits. cbn [p_payload].
+  - unfold write_aggregated. intros H. apply ok_inj in H. apply pair_equal_spec in H. destruct H as [H _]. subst pkts.
+    constructor; [|constructor]. unfold fits. cbn [p_payload].
     rewrite stap_payload_len. destruct Hok as [Hl|Hl]; [simpl in Hl; lia|exact Hl].
 Qed.
 
@@ -178,14 +182,14 @@ Proof.
   - cbn [enc_loop]. apply write_batch_total; assumption.
   - assert (Hn : nalu <> []) by (intros ->; apply Ha; left; reflexivity).
     assert (Hr : ~ In [] r) by (intros H; apply Ha; right; exact H).
-    cbn [enc_loop]. destruct (len_agg batch (Some nalu) <=? e_max e).
+    cbn [enc_loop]. match goal with |- context [if ?c then _ else _] => destruct c end.
     + apply IH; try assumption. intros H. apply in_app_or in H. destruct H as [H|[H|[]]]; [tauto|congruence].
     + destruct batch as [|b0 br].
       * apply IH; try assumption. intros [H|[]]. congruence.
       * destruct (write_batch_total e (b0 :: br) false Hmax Hb) as [[pk1 e1] E1]. rewrite E1.
         pose proof (write_batch_max _ _ _ _ _ E1) as [Hm _].
         destruct (IH e1 [nalu] ltac:(lia) ltac:(intros [H|[]]; congruence) Hr) as [[pk2 e2] E2].
-        rewrite E2. eexists; reflexivity.
+        cbv beta iota. rewrite E2. eexists; reflexivity.
 Qed.
 
 Theorem h264_encode_total e au :
